@@ -6,6 +6,7 @@ From Snaps Require Import Base.Bytes Base.Lines Base.Dec Base.Assoc.
 From Snaps Require Import Model.Frame Model.PathModel Model.Mode Model.Api.
 From Snaps Require Import Proofs.BytesP Proofs.LinesP Proofs.FrameP Proofs.ApiP Proofs.StandaloneP
   Proofs.StepP Proofs.IsolationP Proofs.OutcomeP.
+From Snaps Require Import Proofs.HistoryP Proofs.UpdateHistoryP Proofs.StandaloneHistoryP.
 
 (* the rewrite replaces exactly the entries under the header, byte for byte, and leaves every
    other entry byte-identical and in place: the new file IS the rendering of the old entry
@@ -77,3 +78,29 @@ Example C04_example :
   update_entry (B "[TestB - 1]") [] (render es) =
   render [(B "[TestA - 1]", B "a"); (B "[TestB - 1]", []); (B "[TestC - 1]", [])].
 Proof. vm_compute. reflexivity. Qed.
+
+(* ---------- over histories: update mode CONVERGES ---------- *)
+
+(* a run that rewrites entries (any history of multi-entry calls on entry-structured collision-free files, one value per slot)
+   leaves the files in a state that the SAME run - in update mode again, or in any other mode - passes silently without a
+   single write: a second update run changes nothing *)
+Theorem C04_update_run_converges : forall H s0 h e2,
+  fresh s0 -> headers_ok H -> efs_ok H (s_fs s0) ->
+  Forall hist_op_ok h -> Forall has_value h ->
+  Forall rec_ok_upd (snd (run s0 h)) ->
+  Forall (fact_ok H) (facts s0 h) -> consistent (facts s0 h) ->
+  let s1 := fst (run s0 h) in
+  let t0 := replay_start s1 e2 in
+  Forall silent_pass (snd (run t0 h)) /\ s_fs (fst (run t0 h)) = s_fs s1.
+Proof. exact replay_after_update. Qed.
+Print Assumptions C04_update_run_converges.
+
+(* ... and so do standalone files, which update mode replaces wholesale *)
+Theorem C04_standalone_update_run_converges : forall s0 h e2,
+  fresh s0 -> Forall stand_op_ok h -> Forall has_value h -> Forall rec_ok_upd (snd (run s0 h)) ->
+  sconsistent (sfacts s0 h) ->
+  let s1 := fst (run s0 h) in
+  let t0 := replay_start s1 e2 in
+  Forall silent_pass (snd (run t0 h)) /\ s_fs (fst (run t0 h)) = s_fs s1.
+Proof. exact standalone_replay_after_update. Qed.
+Print Assumptions C04_standalone_update_run_converges.
